@@ -47,7 +47,7 @@ def outStep (s : OutSt) (c : Clock) (z : Nat → Float) : OutSt :=
     if Int.tmod c.stepRelative v.raStride == 0 && decide (c.stepRelative > s.prevRel) then
       let (ra', o) := runAveStep v.raLen none v.ra (z v.atom)
       match o with
-      | some (m, sd) => { v with ra := ra', raLines := v.raLines ++ [(c.stepRelative, m, sd)] }
+      | some (m, sd) => { v with ra := ra', raLines := v.raLines ++ [(c.it, m, sd)] }
       | none => { v with ra := ra' }
     else v
   let s := { s with cvs := cvs }
